@@ -82,7 +82,9 @@ func (t *transformer) send(w io.Writer) error {
 	if _, err := t.f.Seek(0, 0); err != nil {
 		return err
 	}
-	if _, err := io.Copy(tw, t.f); err != nil {
+	// exactly size bytes: a trailing read to find EOF could run concurrently
+	// with Apply, which uses the same file (and file offset)
+	if _, err := io.CopyN(tw, t.f, size); err != nil {
 		return err
 	}
 	return tw.Close()
